@@ -1,5 +1,5 @@
 import CkbVerif.Driver.Util
-import CkbVerif.Model.Reorg
+import CkbVerif.Model.ReorgReadd
 
 /-! Line-protocol driver for C12 (protocol: harness/n12/src/c12.rs). -/
 namespace CkbVerif.Driver.C12
@@ -32,6 +32,17 @@ def parseCTx (id sp dp hd ou ok sz : String) : Option CTx :=
   match parseNat? id, parseNatList? sp, parseNatList? dp, parseNatList? hd, parseNatList? ou, parseNat? ok, parseNat? sz with
   | some id, some sp, some dp, some hd, some ou, some ok, some sz => some ⟨id, sp, dp, hd, ou, ok != 0, sz⟩
   | _, _, _, _, _, _, _ => none
+
+/-- the pool after the section; `out` = ids left out of the comparison (removed groups of
+    `remove_by_detached_proposal` whose re-add order the harness cannot determine) -/
+def rafter (s : DSt) (ex out : String) : DSt × String :=
+  match parseNatList? ex, parseNatList? out with
+  | some ex, some out =>
+    let a : Args := { curArgs s with expired := ex }
+    let r := (reorgR s.pool.reverse a).filter fun e => !out.contains e.id
+    let l := (r.map fun e => (e.id, e.status)).foldr insertSorted []
+    ({ s with full := some a }, showList "," (l.map fun x => s!"{x.1}:{x.2}"))
+  | _, _ => (s, "bad-op")
 
 def step (s : DSt) (ts : List String) : DSt × String :=
   match ts with
@@ -66,19 +77,13 @@ def step (s : DSt) (ts : List String) : DSt × String :=
     let p := s.pool.reverse
     let l := (p.map fun e => (e.id, 0)).foldr insertSorted []
     (s, showList "," (l.map fun x => s!"{x.1}:{showList "." ((sortNat (descOf p x.1)).map toString)}"))
-  | ["rafter", ex] =>
-    match parseNatList? ex with
-    | some ex =>
-      let a : Args := { curArgs s with expired := ex }
-      let r := reorg s.pool.reverse a
-      let l := (r.map fun e => (e.id, e.status)).foldr insertSorted []
-      ({ s with full := some a }, showList "," (l.map fun x => s!"{x.1}:{x.2}"))
-    | none => (s, "bad-op")
+  | ["rafter", ex] => rafter s ex "-"
+  | ["rafter", ex, out] => rafter s ex out
   | ["rback"] =>
     -- the verdict of `readd_detached_tx` per detached-only transaction, block order
     match s.full with
     | some a =>
-      let r := reorg s.pool.reverse a
+      let r := reorgR s.pool.reverse a
       (s, showList "," ((retain a).map fun t => s!"{t.id}:{if hasId r t.id then 1 else 0}"))
     | none => (s, "bad-op")
   | op :: _ =>
